@@ -615,7 +615,7 @@ def run(ctx):
     for ch in gops2:
         sessions.append(("model-paths-in-flight", ch, True))
     for i in range(2 if quick else 8):
-        sessions.append(("reentrant", gen_reentrant(rng, 1200 if quick else 6000, rng.choice([6, 20, 80])), True))
+        sessions.append(("reentrant", gen_reentrant(rng, 1200 if quick else 3000, rng.choice([6, 20, 80])), True))
     for i in range(3 if quick else 10):
         sessions.append(("random", gen_random(rng, 2500 if quick else 12000, rng.choice([80, 240, 460, 800]),
                                               bounds, False), True))
@@ -650,7 +650,9 @@ def run(ctx):
     # the traces given to the ideal: huge sessions are sharded by address; origin[t] = (session, positions)
     flat, origin = [], []
     for i, ideal in enumerate(ideals):
-        if len(ideal) > 15000:
+        # sharding by address is sound only for flat histories: begin/end events nest, and the nesting relates
+        # callbacks of different addresses, so a history with invocations in flight is always validated whole
+        if len(ideal) > 15000 and not any(e["ev"] in ("begin", "end") for e in ideal):
             for tr, pos in shard(ideal):
                 flat.append(tr)
                 origin.append((i, pos))
